@@ -276,6 +276,8 @@ pub trait Subject: Send {
     fn de_json(&self, s: &str) -> Result<Box<dyn Subject>, String>;
     fn dbg(&self) -> String;
     fn disp(&self) -> String;
+    /// Display through a format spec: 0 `{:>24}`, 1 `{:<24}`, 2 `{:+}`, 3 `{:08}`, 4 `{:.3}`
+    fn disp_spec(&self, spec: u8) -> String;
     fn period(&self) -> Option<usize>;
     fn multiplier(&self) -> Option<f64>;
 
@@ -387,6 +389,15 @@ macro_rules! subject_impl {
             }
             fn disp(&self) -> String {
                 format!("{}", self.0)
+            }
+            fn disp_spec(&self, spec: u8) -> String {
+                match spec {
+                    0 => format!("{:>24}", self.0),
+                    1 => format!("{:<24}", self.0),
+                    2 => format!("{:+}", self.0),
+                    3 => format!("{:08}", self.0),
+                    _ => format!("{:.3}", self.0),
+                }
             }
             fn period(&self) -> Option<usize> {
                 subject_impl!(@period $period, self)
